@@ -235,7 +235,13 @@ def _builtin(s, ctx, func, g, tc, A, caller, ln, last):
         tgt = deref_all(A[0])
         if isinstance(tgt, Str): tgt.t = ''; return unit()
     if E('String::push'):
-        raise Unsupported('String mutation')
+        tgt = deref_all(A[0]); ch = A[1]
+        if isinstance(ch, int): ch = chr(ch)
+        if isinstance(tgt, Str) and isinstance(ch, str):
+            if isinstance(tgt.t, str): tgt.t = tgt.t + ch
+            else: tgt.t = ('join', '', [Str(tgt.t), Str(ch)])
+            tgt.cap = None; return unit()
+        raise Unsupported('String::push of a symbolic character')
     # ------------------------------------------------------------ Vec / VecDeque
     if re.search(r'(Vec|VecDeque)::(new|with_capacity)$', g): return SeqM(kind='VecDeque' if 'VecDeque' in g else 'Vec')
     if re.search(r'(HashMap|HashSet)::(new|with_capacity|default)$', g): return MapM(kind='HashSet' if 'HashSet' in g else 'HashMap')
@@ -376,6 +382,10 @@ def _builtin(s, ctx, func, g, tc, A, caller, ln, last):
                     elif acc > hi: raise Panic('attempt to add with overflow (iterator sum)', 'arith')
                 return acc
             if m == 'count': return len(out)
+            if m == 'fold':
+                acc = A[1]
+                for x in out: acc = yield from s.call_callable(ctx, A[2], [acc, x])
+                return acc
             if m == 'last': return some(out[-1]) if out else none()
             if m == 'for_each':
                 for x in out: yield from s.call_callable(ctx, A[1], [x])
